@@ -603,4 +603,40 @@ theorem decNewRefvalU_field (e : Elem) (n m : Nat) (sgn : Bool) (s : St) (suf : 
   simp only [decNewRefvalU, St.read, St.pushDesc, hb, readInt_field n m sgn suf hn hm, St.pushAll,
     bind, Except.bind, pure, Except.pure, St.afterRead, setNewRefval, St.setRegs]
 
+/-! #### descriptor packing -/
+
+theorem toBits_append (a b hi lo : Nat) (hlo : lo < 2 ^ b) :
+    toBits (a + b) (hi * 2 ^ b + lo) = toBits a hi ++ toBits b lo := by
+  induction a with
+  | zero =>
+    simp only [Nat.zero_add, toBits, List.nil_append]
+    exact toBits_add_mul b hi lo
+  | succ a ih =>
+    have e : a + 1 + b = (a + b) + 1 := by omega
+    rw [e]
+    simp only [toBits, List.cons_append, ih]
+    congr 2
+    have h1 : (hi * 2 ^ b + lo) / 2 ^ (a + b) = hi / 2 ^ a := by
+      rw [Nat.pow_add, Nat.mul_comm (2 ^ a), ← Nat.div_div_eq_div_mul]
+      congr 1
+      rw [Nat.add_comm, Nat.add_mul_div_right _ _ (Nat.two_pow_pos b), Nat.div_eq_of_lt hlo, Nat.zero_add]
+    rw [h1]
+
+theorem toBits_fxy (F X Y : Nat) (_hF : F < 4) (hX : X < 64) (hY : Y < 256) :
+    toBits 16 (F * 2 ^ 14 + X * 2 ^ 8 + Y) = toBits 2 F ++ toBits 6 X ++ toBits 8 Y := by
+  have h1 : F * 2 ^ 14 + X * 2 ^ 8 + Y = (F * 2 ^ 6 + X) * 2 ^ 8 + Y := by omega
+  rw [h1, show (16 : Nat) = 8 + 8 from rfl, toBits_append 8 8 _ Y (by omega),
+    show (8 : Nat) = 2 + 6 from rfl, toBits_append 2 6 F X (by omega)]
+
+theorem writeUInt_ofNat' (w : Bits) (n v : Nat) (hn : 0 < n) (hv : v < 2 ^ n) :
+    writeUInt w (v : Int) n = .ok (w ++ toBits n v) := writeUInt_ofNat w n v hn hv
+
+theorem writeUInt_nat_unfit (w : Bits) (v n : Nat) (h : 2 ^ n ≤ v) :
+    writeUInt w (v : Int) n = .error .other := by
+  unfold writeUInt
+  by_cases hn : n = 0
+  · simp [hn]
+  · have h1 : ¬ ((v : Int) < 0) := by omega
+    simp [hn, h1, h]
+
 end Bufr
